@@ -257,6 +257,51 @@ func loadPatchVariants(verif, prop string) []patchVariant {
 	for _, f := range rfs {
 		out = append(out, patchVariant{Name: "refactor/" + filepath.Base(filepath.Dir(f)), Path: f, Expect: "silent"})
 	}
+	// refactorings written against functions rather than properties (ALL_*): relevant when they touch
+	// a file this property is anchored in
+	anchored := anchorFiles(verif, prop)
+	all, _ := filepath.Glob(filepath.Join(verif, "refactors", "ALL_*", "patch.diff"))
+	for _, f := range all {
+		diff, err := os.ReadFile(f)
+		if err != nil {
+			continue
+		}
+		touches := false
+		for _, m := range patchFileRe.FindAllStringSubmatch(string(diff), -1) {
+			if anchored[m[1]] {
+				touches = true
+			}
+		}
+		if touches {
+			out = append(out, patchVariant{Name: "refactor/" + filepath.Base(filepath.Dir(f)), Path: f, Expect: "silent"})
+		}
+	}
+	return out
+}
+
+// anchorFiles: the files a property is anchored in (properties.jsonl).
+func anchorFiles(verif, prop string) map[string]bool {
+	out := map[string]bool{}
+	f, err := os.Open(filepath.Join(verif, "properties.jsonl"))
+	if err != nil {
+		return out
+	}
+	defer f.Close()
+	sc := bufio.NewScanner(f)
+	sc.Buffer(make([]byte, 1<<20), 1<<22)
+	for sc.Scan() {
+		var rec struct {
+			ID      string `json:"id"`
+			Anchors struct {
+				Files []string `json:"files"`
+			} `json:"anchors"`
+		}
+		if json.Unmarshal(sc.Bytes(), &rec) == nil && rec.ID == prop {
+			for _, fl := range rec.Anchors.Files {
+				out[fl] = true
+			}
+		}
+	}
 	return out
 }
 
